@@ -18,20 +18,33 @@
   draw_iter-only target — is exactly the pixel sequence of `pixels()` clipped to the target box:
   same points, same colours, same order. Hence the three paths leave the same pixel map, and "last
   write wins" picks the same colour on each.
-  Helper lemmas: EG/Lemmas/C01ThickStream.lean, EG/Lemmas/C01ThickTri.lean.
+  Helper lemmas: EG/Lemmas/C01ThickStream.lean, C01ThickTri.lean, TriScanlinesLoop.lean,
+  TriRowScan.lean, TriTopRow.lean.
 
-  Guards (both decidable, both `True` on every op of the `thick.triangle` stream):
+  THE SCANLINE ITERATOR IS NOT FUSED, and the model keeps that (`TriScanlines.next` returns the
+  successor state with `None` too): a row of the styled bounding box without any intersection makes
+  `next()` return `None`, the following call goes on with the row after it. `draw_styled`'s `for`
+  loop stops at the first `None`; `StyledPixelsIterator::new` calls `next()` once, FORGIVES a `None`
+  and keeps the advanced iterator, `StyledPixelsIterator::next` stops at the first `None` it sees
+  itself. The two renderers therefore differ exactly if the first call returns `None` and the second
+  does not — if the first two rows of the box have no scanline and a later row has a coloured one.
+  `styled_triangle_first_none_final`: this never happens, because the TOP ROW of the box always has a
+  scanline unless no row has one (the top row is the row of an end point of a drawn edge / of the
+  topmost vertex, and a Bresenham line contains its end points). An empty row FURTHER DOWN would stop
+  both renderers alike (no such row was ever seen: harness counters `triangle:scanlines:*`).
+
+  Guards (decidable, `True` on every op of the `thick.triangle` stream):
   * `TriRectsInRange t style` — no `fill_solid` rectangle saturates `i32` (`Rect.InRange`);
-  * `TriPixelBudgetOK t style` — a MODEL artefact, not a condition on the code: the model drains
-    `pixels()` with fuel `3 (bb.w + 2 width + 4) (bb.h + 1) + 2` and returns the prefix seen when the
-    fuel is used up; the guard says the list is shorter than the fuel, i.e. complete. (The fuels of the
-    scanline `for` loop of `draw_styled` and of the `loop` inside `StyledPixelsIterator::next` are
-    PROVED never to be used up: at most three scanlines per row.) It is DISCHARGED — only `i32`-range
-    guards remain — for stroke width 0, stroke width 1 and collapsed inside strokes, and replaced by
-    C02's `TriStrokeGuard` for Center / Outside strokes of width > 1 (EG/Lemmas/C01ThickBudget.lean:
-    the budget suffices whenever everything drawn lies inside the bounding box, which is C02's claim).
+  * `TriNeedsI32 t style → TriI32 t` — the vertices are `i32`s (true of every real `Triangle`; the
+    model's coordinates are integers), asked only for stroke width 1 and for non-collapsed Inside
+    strokes of width > 1, where the proof of the top-row fact uses that the join corners at a vertex
+    are computed exactly.
+  No fuel guard: the model drains `pixels()` with the total length of the scanline run as fuel, which
+  is PROVED sufficient (`styled_triangle_pixels_complete`), like the fuels of the scanline `for` loop
+  and of the `loop` inside `StyledPixelsIterator::next` (at most three scanlines per row).
 -/
-import EG.Lemmas.C01ThickBudget
+import EG.Lemmas.TriTopRow
+import EG.Lemmas.JoinsTransparent
 import EG.Props.C02.JoinsBBox
 namespace EG.C01.Triangle
 open EG EG.Tgt EG.Joins EG.C01Thick EG.C02.JoinsBBox
@@ -49,48 +62,104 @@ theorem styled_triangle_total (t : Tri) (style : TriStyle) :
     (∃ calls, triDraw t style = some calls) ∧ (∃ px, triPixels t style = some px) :=
   ⟨triDraw_total t style, triPixels_total t style⟩
 
-/-- **Same scanlines, same order.** One list `L` of typed, non-empty scanlines — the run of the
-`ScanlineIterator` up to its first `None` — gives both the `fill_solid` calls of `draw()` (the
-coloured scanlines as rectangles, in the order of `L`) and the pixels of `pixels()` (the coloured
-scanlines point by point, in the order of `L`). -/
-theorem styled_triangle_same_scanlines (t : Tri) (style : TriStyle) (hb : TriPixelBudgetOK t style)
-    (calls : List (Rect × Nat)) (px : Writes)
-    (hd : triDraw t style = some calls) (hpx : triPixels t style = some px) :
-    ∃ L : List (Scanline × PointType), (∀ x ∈ L, x.1.isEmpty = false) ∧
-      calls = (if style.isTransparent then [] else L.filterMap (triCall style)) ∧
-      px = L.flatMap (typedPixels style.fillColor style.effectiveStrokeColor) :=
-  tri_same_scanlines t style hb calls px hd hpx
-example : TriPixelBudgetOK ⟨⟨-3, 1⟩, ⟨6, -2⟩, ⟨2, 7⟩⟩ ⟨some 9, some 5, 3, .center⟩ := by decide +kernel
+/-- **A first `None` of the (non-fused) scanline iterator is final.** If the first `next()` call on the
+`ScanlineIterator` of a styled triangle returns `None`, so does the call after it, made on the iterator
+as the first call left it (`li'`): `StyledPixelsIterator::new`, which forgives one `None`, and the `for`
+loop of `draw_styled`, which stops at it, see the same scanlines. Every triangle, stroke width,
+alignment and fill option; `i32` vertices where `TriNeedsI32` (width 1, non-collapsed Inside strokes
+of width > 1). -/
+theorem styled_triangle_first_none_final (t : Tri) (style : TriStyle) (hi : TriNeedsI32 t style → TriI32 t) :
+    ∀ li li', triScanlines t style = some li → li.next = some (none, li') → li'.nextLoop = some none :=
+  triFirstNoneFinal t style hi
+example : TriNeedsI32 ⟨⟨-3, 1⟩, ⟨6, -2⟩, ⟨2, 7⟩⟩ ⟨some 9, some 5, 3, .inside⟩ ∧ TriI32 ⟨⟨-3, 1⟩, ⟨6, -2⟩, ⟨2, 7⟩⟩ := by
+  decide +kernel
+-- the premise `li.next = some (none, li')` is not vacuous, and `li'` is NOT `li` (the iterator is not fused):
+-- stroke width 0 without fill — the first call returns `None` and leaves the iterator on the second row
+example : (do
+    let li ← triScanlines ⟨⟨-3, 1⟩, ⟨6, -2⟩, ⟨2, 7⟩⟩ ⟨none, some 5, 0, .center⟩
+    let (r, li') ← li.next
+    pure (r.isNone && li'.rowsStart == li.rowsStart + 1 && li'.scanlineY == li.scanlineY + 1)) = some true := by
+  decide +kernel
 
-/-- Whatever the model's pixel budget: `pixels()` of the model is the first `budget` pixels of the
-coloured scanlines `draw()` turns into rectangles, walked in the same order — the only way
-`TriPixelBudgetOK` can fail is truncation of the model's list (no guard). -/
-theorem styled_triangle_pixels_prefix (t : Tri) (style : TriStyle) (bb : Rect)
-    (hbb : triStyledBoundingBox t style = some bb) :
-    ∃ L : List (Scanline × PointType),
+-- WHY the top-row fact is needed (and that the model really is not fused): give the same triangle's
+-- `ScanlineIterator` a box that starts TWO rows above the topmost vertex (not the styled bounding box).
+-- The first call returns `None` (rows -4 and -3 have no intersection), the second call returns the first
+-- scanline of row -2: the `for` loop of `draw_styled` would see no scanline at all, `StyledPixelsIterator`
+-- (one forgiven `None`) all of them. With the real box — or a box starting ONE row above — no call before
+-- the last row returns `None`.
+example : (do
+    let li ← TriScanlines.new ⟨⟨-3, 1⟩, ⟨6, -2⟩, ⟨2, 7⟩⟩ 1 .none false ⟨⟨-3, -4⟩, ⟨10, 12⟩⟩
+    let l ← li.toList
+    let (r1, li1) ← li.next
+    let (r2, _) ← li1.next
+    pure (l.length, r1.isNone, r2.map (·.1.y))) = some (0, true, some (-2)) := by decide +kernel
+example : (do
+    let li ← TriScanlines.new ⟨⟨-3, 1⟩, ⟨6, -2⟩, ⟨2, 7⟩⟩ 1 .none false ⟨⟨-3, -3⟩, ⟨10, 11⟩⟩
+    let l ← li.toList
+    let (r1, _) ← li.next
+    pure (l.length, r1.map (·.1.y))) = some (17, some (-2)) := by decide +kernel
+
+/-- **The top row of the styled bounding box has a scanline** (the line configuration
+`ScanlineIntersections::new` computes for it yields one), unless the style has stroke width 0 and no
+fill colour — then no row has one. -/
+theorem styled_triangle_top_row_has_scanline (t : Tri) (style : TriStyle) (bb : Rect)
+    (hbb : triStyledBoundingBox t style = some bb) (hlt : bb.tl.y < 2147483647)
+    (hi : TriNeedsI32 t style → TriI32 t) (ints0 : TriIntersections)
+    (hnew : TriIntersections.new t.sortedClockwise style.strokeWidth style.strokeAlignment.toOffset
+      style.fillColor.isSome bb.tl.y = some ints0) :
+    ints0.next.isSome = true ∨
+      (ints0.strokeWidth = 0 ∧ ints0.hasFill = false ∧ ints0.isCollapsed = false) :=
+  triIntersections_new_top t style bb hbb hlt hi ints0 hnew
+example : ∃ bb, triStyledBoundingBox ⟨⟨-3, 1⟩, ⟨6, -2⟩, ⟨2, 7⟩⟩ ⟨some 9, some 5, 3, .outside⟩ = some bb ∧
+    bb.tl.y < 2147483647 ∧
+    (TriIntersections.new (⟨⟨-3, 1⟩, ⟨6, -2⟩, ⟨2, 7⟩⟩ : Tri).sortedClockwise 3 .left true bb.tl.y).isSome = true := by
+  decide +kernel
+
+/-- **`pixels()` of the model is complete, and both paths walk the same scanlines in the same order.**
+One list `L` of typed, non-empty scanlines — the run of the `ScanlineIterator` up to its first `None`
+— gives both the `fill_solid` calls of `draw()` (the coloured scanlines as rectangles, in the order of
+`L`) and the pixels of `pixels()` (the coloured scanlines point by point, in the order of `L`; ALL of
+them: the fuel of the model's drain is never used up). -/
+theorem styled_triangle_same_scanlines (t : Tri) (style : TriStyle) (hi : TriNeedsI32 t style → TriI32 t) :
+    ∃ L : List (Scanline × Joins.PointType), (∀ x ∈ L, x.1.isEmpty = false) ∧
       triDraw t style = some (if style.isTransparent then [] else L.filterMap (triCall style)) ∧
-      triPixels t style = some ((L.flatMap (typedPixels style.fillColor style.effectiveStrokeColor)).take
-        (3 * (bb.size.w + 2 * style.strokeWidth + 4) * (bb.size.h + 1) + 2)) := by
-  obtain ⟨L, hL, hpx⟩ := triPixels_prefix_run t style bb hbb
-  refine ⟨L, ?_, hpx⟩
-  rw [triDraw_eq]
-  unfold triScanlineRun at hL
-  by_cases htr : style.isTransparent = true
-  · simp only [htr, ↓reduceIte]
-  · simp only [htr, Bool.false_eq_true, ↓reduceIte, hL, Option.map_some]
-example : ∃ bb, triStyledBoundingBox ⟨⟨-3, 1⟩, ⟨6, -2⟩, ⟨2, 7⟩⟩ ⟨some 9, some 5, 3, .center⟩ = some bb :=
-  triStyledBoundingBox_total _ _
+      triPixels t style = some (L.flatMap (typedPixels style.fillColor style.effectiveStrokeColor)) :=
+  tri_same_scanlines t style (triFirstNoneFinal t style hi)
+example : ¬ TriNeedsI32 ⟨⟨-3, 1⟩, ⟨6, -2⟩, ⟨2, 7⟩⟩ ⟨some 9, some 5, 3, .center⟩ := by decide +kernel
+
+/-- The model's `pixels()` is the complete run of the pixel iterator (no fuel guard): with ANY larger
+fuel the drain returns the same list. -/
+theorem styled_triangle_pixels_complete (t : Tri) (style : TriStyle) (hi : TriNeedsI32 t style → TriI32 t)
+    (px : Writes) (hpx : triPixels t style = some px) :
+    ∃ it, TriPixels.new t style = some it ∧ ∀ fuel, px.length < fuel → it.toListFuel fuel = some px := by
+  obtain ⟨li, hli⟩ := triScanlines_total t style
+  obtain ⟨L, -, hrun, -⟩ := triLines li
+  obtain ⟨it, hit, hpix⟩ := triPix_new t style (triFirstNoneFinal t style hi) li hli L hrun
+  obtain ⟨L', hL', -, hpx'⟩ := triPixels_eq_run t style (triFirstNoneFinal t style hi)
+  have hLL : L' = L := by
+    obtain ⟨L2, hL2, hrun2, -⟩ := triLines li
+    have h1 : triScanlineRun t style = some L2 := by unfold triScanlineRun; rw [hli]; exact hL2
+    rw [hL'] at h1
+    have h2 : L' = L2 := Option.some.inj h1
+    rw [h2]
+    exact hrun2.unique hrun
+  rw [hpx, hLL] at hpx'
+  have hpxe : px = L.flatMap (typedPixels style.fillColor style.effectiveStrokeColor) := Option.some.inj hpx'
+  refine ⟨it, hit, fun fuel hf => ?_⟩
+  rw [triPixels_toListFuel_eq, hpxe]
+  exact hpix.listFuel fuel (by rw [← hpxe]; exact hf)
+example : TriI32 ⟨⟨-3, 1⟩, ⟨6, -2⟩, ⟨2, 7⟩⟩ := by decide
 
 /-- **Write sequences.** For every triangle, style and target box: the writes of `draw()` — natively
 (R2) and through the trait defaults (R1) — are exactly the pixels of `pixels()` clipped to the box:
 same points, same colours, same order (so a stroke pixel written over a fill pixel is written over
 it on every path). -/
 theorem styled_triangle_writes_agree (t : Tri) (style : TriStyle)
-    (hr : TriRectsInRange t style) (hb : TriPixelBudgetOK t style) (calls : List (Rect × Nat))
+    (hr : TriRectsInRange t style) (hi : TriNeedsI32 t style → TriI32 t) (calls : List (Rect × Nat))
     (px : Writes) (hd : triDraw t style = some calls) (hpx : triPixels t style = some px) (B : Rect) :
     (solidCalls calls).flatMap (Call.writesNative B) = clipWrites B px ∧
     (solidCalls calls).flatMap (Call.writesDefault B) = clipWrites B px := by
-  have h := triStyled_writes t style B hr hb calls px hd hpx
+  have h := triStyled_writes t style (triFirstNoneFinal t style hi) B hr calls px hd hpx
   have hn : (solidCalls calls).flatMap (Call.writesNative B) = clipWrites B px := by
     rw [← h]
     unfold Call.writesNative clipWrites
@@ -98,94 +167,73 @@ theorem styled_triangle_writes_agree (t : Tri) (style : TriStyle)
   refine ⟨hn, ?_⟩
   rw [← hn]
   exact flatMap_congr_left _ _ _ (fun c _ => Call.writesDefault_eq_writesNative B c)
-example : TriRectsInRange ⟨⟨-3, 1⟩, ⟨6, -2⟩, ⟨2, 7⟩⟩ ⟨some 9, some 5, 3, .center⟩ ∧
-    TriPixelBudgetOK ⟨⟨-3, 1⟩, ⟨6, -2⟩, ⟨2, 7⟩⟩ ⟨some 9, some 5, 3, .center⟩ := by decide +kernel
+example : TriRectsInRange ⟨⟨-3, 1⟩, ⟨6, -2⟩, ⟨2, 7⟩⟩ ⟨some 9, some 5, 3, .center⟩ := by decide +kernel
 
 /-- **Styled triangle: `draw()` on R1 = `draw()` on R2 = `draw_iter(pixels())`**, as pixel maps, for
 every triangle (also zero-area), stroke width (0, 1 and wider), alignment, fill / stroke colour option
-(also none: nothing is drawn on any path) and target box. -/
-theorem styled_triangle_paths_agree_partial (t : Tri) (style : TriStyle)
-    (hr : TriRectsInRange t style) (hb : TriPixelBudgetOK t style) : StyledTrianglePathsAgree t style := by
+(also none: nothing is drawn on any path) and target box. Guards: `i32` ranges only. -/
+theorem styled_triangle_paths_agree (t : Tri) (style : TriStyle)
+    (hr : TriRectsInRange t style) (hi : TriNeedsI32 t style → TriI32 t) : StyledTrianglePathsAgree t style := by
   intro calls px hd hpx B p
-  obtain ⟨h1, h2⟩ := styled_triangle_writes_agree t style hr hb calls px hd hpx B
+  obtain ⟨h1, h2⟩ := styled_triangle_writes_agree t style hr hi calls px hd hpx B
   rw [runDefault_drawIter]
   unfold runNative runDefault
   rw [h1, h2]
   exact ⟨rfl, rfl⟩
 -- a stroke that covers part of the fill (inside alignment), a fill-only style, a collapsed inside stroke
 example : TriRectsInRange ⟨⟨-3, 1⟩, ⟨6, -2⟩, ⟨2, 7⟩⟩ ⟨some 9, some 5, 2, .inside⟩ ∧
-    TriPixelBudgetOK ⟨⟨-3, 1⟩, ⟨6, -2⟩, ⟨2, 7⟩⟩ ⟨some 9, some 5, 2, .inside⟩ := by decide +kernel
+    TriI32 ⟨⟨-3, 1⟩, ⟨6, -2⟩, ⟨2, 7⟩⟩ := by decide +kernel
 example : TriRectsInRange ⟨⟨-3, 1⟩, ⟨6, -2⟩, ⟨2, 7⟩⟩ ⟨some 9, none, 4, .outside⟩ ∧
-    TriPixelBudgetOK ⟨⟨-3, 1⟩, ⟨6, -2⟩, ⟨2, 7⟩⟩ ⟨some 9, none, 4, .outside⟩ := by decide +kernel
+    ¬ TriNeedsI32 ⟨⟨-3, 1⟩, ⟨6, -2⟩, ⟨2, 7⟩⟩ ⟨some 9, none, 4, .outside⟩ := by decide +kernel
 example : TriRectsInRange ⟨⟨0, 0⟩, ⟨8, 1⟩, ⟨3, 4⟩⟩ ⟨some 9, some 5, 6, .inside⟩ ∧
-    TriPixelBudgetOK ⟨⟨0, 0⟩, ⟨8, 1⟩, ⟨3, 4⟩⟩ ⟨some 9, some 5, 6, .inside⟩ := by decide +kernel
+    ¬ TriNeedsI32 ⟨⟨0, 0⟩, ⟨8, 1⟩, ⟨3, 4⟩⟩ ⟨some 9, some 5, 6, .inside⟩ := by decide +kernel
 
-/-! ### where the budget guard is discharged: only `i32`-range guards (or C02's guard) remain -/
+/-! ### special cases without the vertex guard -/
 
-/-- The model's pixel budget suffices whenever everything `draw()` fills lies inside the bounding box
-(C02's claim) and the top row of the box is an `i32`: the budget guard is not an independent
-assumption. -/
-theorem triangle_pixel_budget_ok_of_draw_in_box (t : Tri) (style : TriStyle)
-    (h : ∀ calls bb, triDraw t style = some calls → triStyledBoundingBox t style = some bb →
-      -2147483648 ≤ bb.tl.y ∧ ∀ rc ∈ calls, ∀ p, rc.1.contains p = true → bb.contains p = true) :
-    TriPixelBudgetOK t style :=
-  triPixelBudgetOK_of_draw_in_box t style h
-
-/-- **Fill only (stroke width 0, any alignment, any colour option): the three paths agree** — guards:
-`i32` ranges only (top row of the vertex box, no rectangle saturates). -/
+/-- **Fill only (stroke width 0, any alignment, any colour option): the three paths agree** — guard:
+no rectangle saturates. -/
 theorem styled_triangle_paths_agree_width0 (t : Tri) (style : TriStyle) (hw : style.strokeWidth = 0)
-    (hg : TriTopGuard t) (hr : TriRectsInRange t style) : StyledTrianglePathsAgree t style := by
-  apply styled_triangle_paths_agree_partial t style hr
-  apply triPixelBudgetOK_of_draw_in_box
-  intro calls bb hd hbb
-  refine ⟨?_, (triangle_fill_in_bounding_box t style hw hg bb hbb).1 calls hd⟩
-  rw [vertex_box_of_thin_or_inside t style (Or.inl (by omega)) bb hbb]
-  exact hg
-example : TriTopGuard ⟨⟨-3, 1⟩, ⟨6, -2⟩, ⟨2, 7⟩⟩ ∧
-    TriRectsInRange ⟨⟨-3, 1⟩, ⟨6, -2⟩, ⟨2, 7⟩⟩ ⟨some 9, some 5, 0, .center⟩ := by decide +kernel
+    (hr : TriRectsInRange t style) : StyledTrianglePathsAgree t style := by
+  apply styled_triangle_paths_agree t style hr
+  intro h
+  unfold TriNeedsI32 at h
+  omega
+example : TriRectsInRange ⟨⟨-3, 1⟩, ⟨6, -2⟩, ⟨2, 7⟩⟩ ⟨some 9, some 5, 0, .center⟩ := by decide +kernel
 
 /-- **Stroke width 1 (any alignment, with or without fill / stroke colour): the three paths agree** —
-guards: `i32` ranges only (vertices, top row of the vertex box, no rectangle saturates). -/
-theorem styled_triangle_paths_agree_width1 (t : Tri) (style : TriStyle) (hw : style.strokeWidth = 1)
-    (hi : TriI32 t) (hg : TriTopGuard t) (hr : TriRectsInRange t style) :
-    StyledTrianglePathsAgree t style := by
-  apply styled_triangle_paths_agree_partial t style hr
-  apply triPixelBudgetOK_of_draw_in_box
-  intro calls bb hd hbb
-  refine ⟨?_, (triangle_width1_in_bounding_box t style hw hi hg bb hbb).1 calls hd⟩
-  rw [vertex_box_of_thin_or_inside t style (Or.inl (by omega)) bb hbb]
-  exact hg
-example : TriI32 ⟨⟨-3, 1⟩, ⟨6, -2⟩, ⟨2, 7⟩⟩ ∧ TriTopGuard ⟨⟨-3, 1⟩, ⟨6, -2⟩, ⟨2, 7⟩⟩ ∧
+guards: `i32` vertices, no rectangle saturates. -/
+theorem styled_triangle_paths_agree_width1 (t : Tri) (style : TriStyle) (_hw : style.strokeWidth = 1)
+    (hi : TriI32 t) (hr : TriRectsInRange t style) : StyledTrianglePathsAgree t style :=
+  styled_triangle_paths_agree t style hr (fun _ => hi)
+example : TriI32 ⟨⟨-3, 1⟩, ⟨6, -2⟩, ⟨2, 7⟩⟩ ∧
     TriRectsInRange ⟨⟨-3, 1⟩, ⟨6, -2⟩, ⟨2, 7⟩⟩ ⟨some 9, some 5, 1, .outside⟩ := by decide +kernel
 
-/-- **Collapsed inside stroke (any width; the whole triangle is painted in the stroke colour): the three
-paths agree** — guards: `i32` ranges only. -/
-theorem styled_triangle_paths_agree_collapsed_inside (t : Tri) (style : TriStyle)
-    (hal : style.strokeAlignment = .inside)
+/-- **Collapsed inside stroke of width > 1 (the whole triangle is painted in the stroke colour): the three
+paths agree** — guard: no rectangle saturates. -/
+theorem styled_triangle_paths_agree_collapsed_inside (t : Tri) (style : TriStyle) (hw : 2 ≤ style.strokeWidth)
     (hc : t.sortedClockwise.isCollapsed style.strokeWidth .right = some true)
-    (hg : TriTopGuard t) (hr : TriRectsInRange t style) : StyledTrianglePathsAgree t style := by
-  apply styled_triangle_paths_agree_partial t style hr
-  apply triPixelBudgetOK_of_draw_in_box
-  intro calls bb hd hbb
-  refine ⟨?_, (triangle_collapsed_inside_in_bounding_box t style hal hc hg bb hbb).1 calls hd⟩
-  rw [vertex_box_of_thin_or_inside t style (Or.inr hal) bb hbb]
-  exact hg
+    (hr : TriRectsInRange t style) : StyledTrianglePathsAgree t style := by
+  apply styled_triangle_paths_agree t style hr
+  intro h
+  unfold TriNeedsI32 at h
+  rcases h with h | ⟨-, -, h⟩
+  · omega
+  · exact absurd hc h
 example : (⟨⟨0, 0⟩, ⟨9, 1⟩, ⟨2, 7⟩⟩ : Tri).sortedClockwise.isCollapsed 4 .right = some true ∧
-    TriTopGuard ⟨⟨0, 0⟩, ⟨9, 1⟩, ⟨2, 7⟩⟩ ∧
     TriRectsInRange ⟨⟨0, 0⟩, ⟨9, 1⟩, ⟨2, 7⟩⟩ ⟨some 9, some 5, 4, .inside⟩ := by decide +kernel
 
-/-- **Center / Outside stroke of width > 1 (with or without fill): the three paths agree** under the
-guard of C02's bounding-box theorem (`TriStrokeGuard`) instead of the budget guard. -/
+/-- **Center / Outside stroke of width > 1 (with or without fill): the three paths agree** — guard: no
+rectangle saturates (C02's `TriStrokeGuard` is no longer needed). -/
 theorem styled_triangle_paths_agree_stroke (t : Tri) (style : TriStyle) (hw : 2 ≤ style.strokeWidth)
-    (hal : style.strokeAlignment ≠ .inside) (hg : TriStrokeGuard t style)
-    (hr : TriRectsInRange t style) : StyledTrianglePathsAgree t style := by
-  apply styled_triangle_paths_agree_partial t style hr
-  apply triPixelBudgetOK_of_draw_in_box
-  intro calls bb hd hbb
-  exact ⟨(triCtx_stroke t style hw hal hg bb hbb).1,
-    triangle_stroke_draw_in_bounding_box_partial t style hw hal hg bb hbb calls hd⟩
-example : TriStrokeGuard ⟨⟨0, 0⟩, ⟨9, 1⟩, ⟨2, 7⟩⟩ ⟨some 1, some 2, 3, .center⟩ ∧
-    TriRectsInRange ⟨⟨0, 0⟩, ⟨9, 1⟩, ⟨2, 7⟩⟩ ⟨some 1, some 2, 3, .center⟩ := by decide +kernel
+    (hal : style.strokeAlignment ≠ .inside) (hr : TriRectsInRange t style) :
+    StyledTrianglePathsAgree t style := by
+  apply styled_triangle_paths_agree t style hr
+  intro h
+  unfold TriNeedsI32 at h
+  rcases h with h | ⟨-, h, -⟩
+  · omega
+  · exact absurd h hal
+example : TriRectsInRange ⟨⟨0, 0⟩, ⟨9, 1⟩, ⟨2, 7⟩⟩ ⟨some 1, some 2, 3, .center⟩ := by decide +kernel
 
 /-- `draw()` of a styled triangle: draw_iter-only target = native-fill target (no guard). -/
 theorem styled_triangle_default_eq_native (t : Tri) (style : TriStyle) (B : Rect)
@@ -211,22 +259,15 @@ theorem styled_triangle_draw_map (t : Tri) (style : TriStyle) (hr : TriRectsInRa
   exact ⟨runNative_solidCalls B calls hin p, runNative_solidCalls B calls hin p⟩
 example : TriRectsInRange ⟨⟨-3, 1⟩, ⟨6, -2⟩, ⟨2, 7⟩⟩ ⟨some 9, some 5, 3, .center⟩ := by decide +kernel
 
-/-- A transparent style (no fill colour and no visible stroke) draws nothing on any path (no guard
-but the model's pixel budget). -/
-theorem styled_triangle_transparent (t : Tri) (style : TriStyle) (h : style.isTransparent = true)
-    (hb : TriPixelBudgetOK t style) : triDraw t style = some [] ∧ triPixels t style = some [] := by
+/-- A transparent style (no fill colour and no visible stroke) draws nothing on any path (no guard). -/
+theorem styled_triangle_transparent (t : Tri) (style : TriStyle) (h : style.isTransparent = true) :
+    triDraw t style = some [] ∧ triPixels t style = some [] := by
   have hd : triDraw t style = some [] := by rw [triDraw_eq]; simp only [h, ↓reduceIte]
   obtain ⟨px, hpx⟩ := triPixels_total t style
-  obtain ⟨L, -, -, hL⟩ := tri_same_scanlines t style hb [] px hd hpx
-  obtain ⟨h1, h2⟩ := isTransparent_colors h
-  rw [h1, h2, flatMap_typedPixels_none] at hL
-  rw [hpx, hL]
+  rw [hpx, triPixels_transparent t style h px hpx]
   exact ⟨hd, rfl⟩
-example : (⟨none, some 5, 0, .center⟩ : TriStyle).isTransparent = true ∧
-    TriPixelBudgetOK ⟨⟨-3, 1⟩, ⟨6, -2⟩, ⟨2, 7⟩⟩ ⟨none, some 5, 0, .center⟩ := by decide +kernel
+example : (⟨none, some 5, 0, .center⟩ : TriStyle).isTransparent = true := by decide
 
 -- [V] styled triangle: that `draw()` issues the same `fill_solid` list whatever the target type (Rust parametricity of `draw_styled` in `D: DrawTarget`): carried by correspondence + oracle only (stream `thick.triangle`: R2 call log `draw=`, pixel sequence `px=`, class `C01:pixels-vs-draw:thick-triangle`)
--- [V] styled triangle: that the pixel list of the model is complete (`TriPixelBudgetOK`: fuel of the model's drain of `pixels()`; decidable, true on every op of the stream) for ALL inputs — proved for stroke width 0, width 1, collapsed inside strokes (i32 guards only) and Center / Outside strokes under C02's `TriStrokeGuard`, and whenever everything drawn lies inside the bounding box; open for non-collapsed Inside strokes of width > 1: carried by correspondence + oracle only (a truncated list would disagree with the real `px=`; `styled_triangle_pixels_prefix`: truncation is the only way to fail)
--- [V] styled triangle: `StyledPixelsIterator::new` calls `lines_iter.next()` once and the first `next()` calls it again when that returned `None`; the real `ScanlineIterator` is not fused (a row without an intersection returns `None`, the following call goes on with the next row), the model's `TriScanlines.next` returns no successor state with `None` (a repeated call repeats the `None`). The two differ only if the FIRST row of the styled bounding box has no scanline while a later one has; that this does not happen is carried by correspondence + oracle only (`px=` compared per op; `C01:pixels-vs-draw:thick-triangle`)
 
 end EG.C01.Triangle
